@@ -8,6 +8,7 @@ CONSTANTS
   MaxB = 4
   MaxF = 3
   Wide = TRUE
+  QVariants = 5
 INVARIANTS TypeOK Conservation Complete BatchShape IdCarried ColsOK PositionIndependent OrderEquivariant OwnIndex FilterIsSelection ChainCommutes
 PROPERTIES Terminates
 CONSTRAINT Emit
